@@ -839,9 +839,11 @@ var c01CertGolden = []struct{ seed, want string }{
 // generators
 
 var c01V4 = []string{"192.122.190.0/24", "141.219.0.0/16", "35.8.0.0/16", "10.0.0.0/31", "10.0.0.7/32", "10.1.0.0/30", "10.1.0.0/29",
-	"0.1.2.0/24", "0.0.0.0/8", "203.0.113.64/26", "192.122.190.0/25", "192.122.190.128/25", "1.2.3.4/32", "128.0.0.0/1", "255.255.255.252/30"}
+	"0.1.2.0/24", "0.0.0.0/8", "203.0.113.64/26", "192.122.190.0/25", "192.122.190.128/25", "1.2.3.4/32", "128.0.0.0/1", "255.255.255.252/30",
+	"10.77.1.2/16", "::ffff:10.9.0.0/112", "::ffff:a0a:0/120"} // host bits set; the IPv4-mapped notation (an IPv6 literal the selectors treat as IPv4)
 var c01V6 = []string{"2001:48a8:687f:1::/64", "2002::/16", "64:ff9b::/96", "::/127", "::1/128", "0:1::/32", "2001:db8::/126",
-	"2001:db8::8/125", "2001:db8::1/128", "fe80::/10", "8000::/1", "2001:db8:0:1::/64"}
+	"2001:db8::8/125", "2001:db8::1/128", "fe80::/10", "8000::/1", "2001:db8:0:1::/64",
+	"2001:DB8:0:2::/64", "64:ff9b::192.0.2.0/120", "2001:0db8:0000:0003:0000:0000:0000:0001/64", "::fffe:10.9.0.0/112"} // other notations: upper case, IPv4 tail, full form with host bits, next to the mapped prefix
 var c01Weights = []uint32{0, 1, 1, 1, 2, 3, 9, 10, 100, 4294967295}
 
 func c01RandNet(r *vlib.Rand) string {
@@ -1015,6 +1017,12 @@ func TestVerifC01(t *testing.T) {
 	// (zz_verif_c01_r4_test.go)
 	c01Boundaries(t, out, w)
 	c01Concurrent(t, out, w, vlib.NewRand("C01-concurrent"))
+	// 6. the subnet strings themselves: the repository's parsers, net.ParseCIDR and the Lean parser
+	// (zz_verif_c01_cidr_test.go)
+	c01Cidr(t, out, vlib.NewRand("C01-cidr"))
+	// 7. the station's table of generations: histories of additions / removals / replacements and the
+	// configuration file (zz_verif_c01_gens_test.go)
+	c01Gens(t, out, vlib.NewRand("C01-generations"))
 }
 
 // c01Fresh replaces the secret by one that comes out of the real client key exchange (crypto/rand
@@ -1104,6 +1112,10 @@ func c01Replay(t *testing.T, out *vlib.Out, w *c01World, path string) {
 			c01HistReplay(t, out, w, line)
 		case "C01CONC":
 			c01ConcReplay(t, out, w, line)
+		case "C01CIDR", "C01CIDRG":
+			c01CidrReplay(t, out, line)
+		case "C01GENS", "C01GENSLOAD":
+			c01GensReplay(t, out, line)
 		case "C01CASE":
 			if len(f) != 8 {
 				t.Fatalf("bad replay line %q", line)
